@@ -94,4 +94,52 @@ theorem tie_handlePUTCond : handlePUTConds.getLast? =
 theorem tie_routes : routerStrings.take 6 =
     ["/{hash:[0-9a-f]{32}}", "GET", "HEAD", "/{hash:[0-9a-f]{32}}+{hints}", "GET", "HEAD"] := rfl
 
+/-- sdk/go/keepclient/perms.go is nothing but re-exports of the arvados functions, regexp and
+error values (the kc driver also checks identity at run time) -/
+theorem tie_keepclientPerms : keepclientPerms =
+    ["ErrSignatureExpired = arvados.ErrSignatureExpired", "ErrSignatureInvalid = arvados.ErrSignatureInvalid",
+     "ErrSignatureMissing = arvados.ErrSignatureMissing", "SignLocator         = arvados.SignLocator",
+     "SignedLocatorRe     = arvados.SignedLocatorRe", "VerifySignature     = arvados.VerifySignature"] := rfl
+
+/-- `Model.C07.getAPIToken` -/
+theorem tie_authRe : authRe = "^(OAuth2|Bearer)\\s+(.*)" := rfl
+theorem tie_getAPIToken : getAPITokenText =
+    "{ if auth, ok := req.Header[\"Authorization\"]; ok { if match := authRe.FindStringSubmatch(auth[0]); match != nil { return match[2] } } return \"\" }" := rfl
+
+/-- `Model.C07.serveGET`: a plain `mux.NewRouter()` (path cleaning on, decoded path matched, no
+strict-slash, no middleware), unmatched requests answered by BadRequestHandler = 400 -/
+theorem tie_routerSetup : routerCalls = ["mux.NewRouter"] ∧
+    routerAssigns = ["rtr.NotFoundHandler = http.HandlerFunc(BadRequestHandler)"] ∧
+    badRequestText = "{ http.Error(w, BadRequestError.Error(), BadRequestError.HTTPCode) }" := ⟨rfl, rfl, rfl⟩
+
+/-- the status codes the model and `ksVerify` use -/
+theorem tie_keepErrors : keepErrors =
+    ["BadRequestError     = &KeepError{400, \"Bad Request\"}", "PermissionError     = &KeepError{403, \"Forbidden\"}",
+     "ExpiredError        = &KeepError{401, \"Expired permission signature\"}",
+     "NotFoundError       = &KeepError{404, \"Not Found\"}"] := rfl
+
+/-- keepstore refuses to start with BlobSigning on and an empty key (so `ksVerify` never runs
+with key = "" in a started keepstore) -/
+theorem tie_setupKeyGuard : (setupConds.drop 2).take 2 =
+    ["if h.Cluster.Collections.BlobSigningKey != \"\"", "if h.Cluster.Collections.BlobSigning"] := rfl
+
+/-- the only caller of SignManifest outside tests: guarded by BlobSigning only, the key is passed
+as configured (possibly empty: then `C07_sign_token_block` says signatures are dropped, none added) -/
+theorem tie_recoverSign : recoverSign =
+    ["if rcvr.cluster.Collections.BlobSigning {", "key := []byte(rcvr.cluster.Collections.BlobSigningKey)",
+     "coll.ManifestText = arvados.SignManifest(coll.ManifestText, rcvr.client.AuthToken, blobsigexp, blobsigttl, key)"] := rfl
+
+/-- blob.rb lines the transcription `Model.C07.Ref` was made from -/
+theorem tie_rbGenerateSignature : rbGenerateSignature =
+    ["OpenSSL::HMAC.hexdigest('sha1', key,", "[blob_hash,", "api_token,", "timestamp,",
+     "blob_signature_ttl].join('@'))"] := rfl
+theorem tie_rbSignLocator : rbSignLocator =
+    ["blob_hash = blob_locator.split('+').first", "timestamp_hex = timestamp.to_s(16)",
+     "blob_signature_ttl = Rails.configuration.Collections.BlobSigningTTL.to_i.to_s(16)",
+     "blob_locator + '+A' + signature + '@' + timestamp_hex",
+     "blob_signature_ttl = Rails.configuration.Collections.BlobSigningTTL.to_i.to_s(16)"] := rfl
+theorem tie_rbVerify : rbVerify =
+    ["unless timestamp =~ /^[\\da-f]+$/", "if timestamp.to_i(16) < (opts[:now] or db_current_time.to_i)",
+     "if my_signature != given_signature"] := rfl
+
 end ArvVerif.Tie.C07
